@@ -67,6 +67,13 @@ C08_RunExecutesWhatItNeeds == IsRun => SetOf(E.exec) = Ex /\ SetOf(E.loads) = Ld
 (* C03 over several calls on the same Lab: what is executed / loaded in each call is exactly what the map says is needed *)
 C03_ExecutesExactlyWhatIsNeeded == IsRun => SetOf(E.exec) = Ex /\ SetOf(E.loads) = Ld /\ NoDup(E.exec) /\ NoDup(E.loads)
 C03_NoRunOnHit == IsAnyRun => SetOf(E.exec) \cap Ld = {}
+(* ... and the instances are marked with *the* outcome: a loaded task with the outcome stored for it, an executed one with *)
+(* the outcome that is in the cache afterwards                                                                            *)
+C03_MarkedOutcome ==
+  IsRun => /\ \A t \in Ld : Tok(E, t) # "none" => Tok(E, t) = ms.store[t].meta
+           /\ \A i \in DOMAIN E.entryvals :
+                 LET t == E.entryvals[i][1] IN
+                 (t \in OkExecuted(U, ms.store, E.req, E.bust, FailOf(E)) /\ Tok(E, t) # "none") => E.entryvals[i][3] = Tok(E, t)
 C08_MapEvolution == SetOf(E.cached) = {t \in TasksOf(U) : Has(ms'.store, t)}
 C08_EntryValues == \A i \in DOMAIN E.entryvals :
                       LET t == E.entryvals[i][1] IN
@@ -83,7 +90,7 @@ C08_Listing == /\ \A y \in DOMAIN E.listed : SetOf(E.listed[y]) = {t \in Stored 
                /\ "listed_all" \in DOMAIN E => /\ SetOf(E.listed_all) = Stored /\ NoDup(E.listed_all)
                                                /\ SetOf(E.listed_rev) = Stored /\ NoDup(E.listed_rev)
 
-Names == {"C08_Listing", "C03_ExecutesExactlyWhatIsNeeded", "C03_NoRunOnHit", "C06_NoRunOnHit", "C06_LoadReturnsStored", "C06_MetaPreserved", "C06_CachedAfterRun",
+Names == {"C08_Listing", "C03_MarkedOutcome", "C03_ExecutesExactlyWhatIsNeeded", "C03_NoRunOnHit", "C06_NoRunOnHit", "C06_LoadReturnsStored", "C06_MetaPreserved", "C06_CachedAfterRun",
           "C08_RunExecutesWhatItNeeds", "C08_MapEvolution", "C08_EntryValues", "C08_NothingElseStored", "C09_Listing"}
 Holds(c) ==
   CASE c = "C03_ExecutesExactlyWhatIsNeeded" -> C03_ExecutesExactlyWhatIsNeeded [] c = "C03_NoRunOnHit" -> C03_NoRunOnHit
@@ -91,7 +98,7 @@ Holds(c) ==
     [] c = "C06_MetaPreserved" -> C06_MetaPreserved [] c = "C06_CachedAfterRun" -> C06_CachedAfterRun
     [] c = "C08_RunExecutesWhatItNeeds" -> C08_RunExecutesWhatItNeeds [] c = "C08_MapEvolution" -> C08_MapEvolution
     [] c = "C08_EntryValues" -> C08_EntryValues [] c = "C08_NothingElseStored" -> C08_NothingElseStored
-    [] c = "C09_Listing" -> C09_Listing [] c = "C08_Listing" -> C08_Listing
+    [] c = "C09_Listing" -> C09_Listing [] c = "C08_Listing" -> C08_Listing [] c = "C03_MarkedOutcome" -> C03_MarkedOutcome
 
 ASSUME \A i \in 1..Len(Traces) : TLCSet(i, [fails |-> {}, reached |-> 0])
 
